@@ -112,6 +112,9 @@ type trans struct {
 	inHeadHavoc bool
 	localAllocs map[*ssa.Alloc]bool
 	heapRefs    map[string]string
+	assertDone  map[string]bool
+	sharedHeaps map[string]bool
+	assertBound map[int]bool
 	heapVal     map[string]types.Type // struct-valued heaps: the value type (for well-formedness of nested references)
 	curCallArgs []ssa.Value
 	stableHeaps map[string]bool
@@ -976,7 +979,7 @@ func TranslateFunc(prog *Program, fn *ssa.Function, fc *FuncContract) *trans {
 			stateSort: map[string]Sort{"$next": "Int"}, known: map[string]bool{}, in: map[int]State{}, out: map[int]State{}, reach: map[int]Term{},
 			edgeCond: map[[2]int]Term{}, pure: map[string]*fnRef{}, assumed: map[string]bool{}, specRefs: map[string]*fnRef{}, globals: map[string]string{},
 			nobl: map[string]int{}, dispatched: map[string]bool{}, termVal: map[Term]ssa.Value{}, termBlock: map[Term]int{}, termFresh: map[Term]bool{},
-			loopWrites: loopWrites, curWrites: map[int]map[string]*writeSet{}, localAllocs: map[*ssa.Alloc]bool{}, heapRefs: map[string]string{}}
+			loopWrites: loopWrites, curWrites: map[int]map[string]*writeSet{}, localAllocs: map[*ssa.Alloc]bool{}, heapRefs: map[string]string{}, assertBound: map[int]bool{}}
 		for k := range known {
 			tr.known[k] = true
 		}
@@ -1015,7 +1018,7 @@ func TranslateFunc(prog *Program, fn *ssa.Function, fc *FuncContract) *trans {
 	}
 	// final pass
 	tr2 := &trans{prog: prog, fn: fn, fc: fc, key: funcKey(fn), vc: NewVC(prog), vals: map[ssa.Value]Term{}, tuples: map[ssa.Value][]Term{},
-		stateSort: tr.stateSort, heapRefs: tr.heapRefs, heapVal: tr.heapVal, known: map[string]bool{}, in: map[int]State{}, out: map[int]State{}, reach: map[int]Term{},
+		stateSort: tr.stateSort, heapRefs: tr.heapRefs, heapVal: tr.heapVal, assertBound: map[int]bool{}, known: map[string]bool{}, in: map[int]State{}, out: map[int]State{}, reach: map[int]Term{},
 		edgeCond: map[[2]int]Term{}, pure: map[string]*fnRef{}, assumed: map[string]bool{}, specRefs: map[string]*fnRef{}, globals: map[string]string{},
 		nobl: map[string]int{}, dispatched: map[string]bool{}, termVal: map[Term]ssa.Value{}, termBlock: map[Term]int{}, termFresh: map[Term]bool{},
 		loopWrites: loopWrites, curWrites: map[int]map[string]*writeSet{}, localAllocs: map[*ssa.Alloc]bool{}}
